@@ -383,6 +383,56 @@ func instrument(dir string, u Unit, repl map[string]string) error {
 				}
 				return true
 			})
+			// raw epoll system calls (poll_opt build): unix.RawSyscall6(unix.SYS_EPOLL_CTL, .., uintptr(unsafe.Pointer(ev)), ..)
+			// is only safe when the callee is the assembly stub. The shim is a Go function that parks
+			// the goroutine at a scheduling point before the real call, and ev lives on the caller's
+			// stack, which the runtime may move meanwhile (observed: epoll registrations carrying
+			// garbage user data). Hand the shim a real pointer instead.
+			ast.Inspect(f, func(n ast.Node) bool {
+				ce, ok := n.(*ast.CallExpr)
+				if !ok || len(ce.Args) < 5 {
+					return true
+				}
+				se, ok := ce.Fun.(*ast.SelectorExpr)
+				if !ok || (se.Sel.Name != "RawSyscall6" && se.Sel.Name != "Syscall6") {
+					return true
+				}
+				id, ok := se.X.(*ast.Ident)
+				if !ok || locals[id.Name] != "golang.org/x/sys/unix" {
+					return true
+				}
+				trap, ok := ce.Args[0].(*ast.SelectorExpr)
+				if !ok {
+					return true
+				}
+				inner := func(e ast.Expr) ast.Expr { // uintptr(Y) -> Y
+					c, ok := e.(*ast.CallExpr)
+					if !ok || len(c.Args) != 1 {
+						return nil
+					}
+					if f, ok := c.Fun.(*ast.Ident); !ok || f.Name != "uintptr" {
+						return nil
+					}
+					return c.Args[0]
+				}
+				switch trap.Sel.Name {
+				case "SYS_EPOLL_CTL":
+					if y := inner(ce.Args[4]); y != nil {
+						se.Sel = ast.NewIdent("EpollCtlP")
+						ce.Args = []ast.Expr{ce.Args[1], ce.Args[2], ce.Args[3], y}
+						unixUsed["EpollCtlP"] = true
+						changed = true
+					}
+				case "SYS_EPOLL_WAIT":
+					if y := inner(ce.Args[2]); y != nil {
+						se.Sel = ast.NewIdent("EpollWaitP")
+						ce.Args = []ast.Expr{ce.Args[1], y, ce.Args[3], ce.Args[4]}
+						unixUsed["EpollWaitP"] = true
+						changed = true
+					}
+				}
+				return true
+			})
 			rw := &rewriter{fset: fset, file: src}
 			if pkg == "." || u.RewriteAllChans {
 				for _, d := range f.Decls {
@@ -459,7 +509,7 @@ var mcsysIntercepted = map[string]bool{
 	"Read": true, "Write": true, "Writev": true, "Readv": true, "Recvfrom": true, "Sendto": true, "Send": true,
 	"Accept4": true, "Accept": true, "Close": true, "Socket": true, "Bind": true, "Listen": true, "Connect": true,
 	"EpollCreate1": true, "EpollCtl": true, "EpollWait": true, "Eventfd": true, "FcntlInt": true, "Dup": true,
-	"Syscall6": true, "RawSyscall6": true,
+	"Syscall6": true, "RawSyscall6": true, "EpollCtlP": true, "EpollWaitP": true,
 }
 
 var mctimeIntercepted = map[string]bool{
